@@ -23,8 +23,8 @@ FOREIGN = {
     "C01": [("C01X", r"^C01:"), ("C15", r":store-|:wild-access"), ("C14", r":write-at-dmax|:wrote-outside-objects")],
     "C02": [("C02X", r"^C02:"), ("C15", r":load-"), ("C14", r":read-at-dmax|:read-via-unset-ptr")],
     "C03": [("C03X", r"^C03:"), ("C15", r":not-terminated|:no-space-accepted")],
-    "C04": [("C04X", r"^C04:"), ("C15", r":not-cleared")],
-    "C05": [("C05X", r"^C05:")],
+    "C04": [("C04X", r"^C04:"), ("C15", r":not-cleared"), ("C07C", r"^C04:")],
+    "C05": [("C05X", r"^C05:"), ("C07H", r"^C05:")],
     "C06": [("C06X", r"^C06:"), ("C15", r":no-space-accepted|:wrong-characters|:wrong-count")],
     "C08": [("C08X", r"^C08:")],
 }
